@@ -162,6 +162,8 @@ pub struct Net<'a> {
     pub nruns: u64,
     /// the script never uses a variable that may be undefined when the use is reached (C19d applies)
     pub joinfree: bool,
+    /// every run so far returned code 0 or 30000
+    pub clean: bool,
 }
 
 pub fn version_tuple(v: &str) -> J {
@@ -221,6 +223,7 @@ impl<'a> Net<'a> {
             started: false,
             nruns: 0,
             joinfree: false,
+            clean: true,
         }
     }
 
@@ -290,6 +293,9 @@ impl<'a> Net<'a> {
         }
 
         let o = self.exec(me, &prev, &cur_bytes, &results);
+        if o.code != 0 && o.code != 30000 {
+            self.clean = false;
+        }
         let reqs = decode_requests(&o.reqs_bytes, self.peers);
         let reqs_ok = reqs.is_some() || o.reqs_bytes.is_empty();
         let reqs = reqs.unwrap_or_default();
